@@ -3,6 +3,11 @@
 import json
 
 CLAIMED = {
+    "C14": {
+        "text": "Proof: Lean theorems: list indexing yields the element in range and null otherwise for every Int index; `k in m`, `m.contains(k)` and `m[k] != null` are all the same function of Map::get, hence agree on presence for every map with non-null values and every key (presence_agreement); int and uint twins of a key agree on presence (numeric_twin_keys_same); has(m.f) agrees with 'f' in m when no non-string key renders to f, and m.f = m['f'] when present; a map literal with pairwise distinct keys contains exactly the entries written (induction over the entry list); size is additive over + for lists and strings (UTF-8 length), concatenation is left operand followed by right; `x in l` iff some element equals x, and contains is the same test. Tie to the code: all maps with up to 3 keys over an 8-key mixed alphabet x 12 queries x both call routes, all lists up to length 4 x indices -2..len+1 and the i64 extremes, random strings/lists for the additive laws, against the model and a recomputation from the written container.",
+        "technique": "Lean 4 theorems over association-list maps and lists (induction, insert/find lemmas) + exhaustive small-container differential correspondence",
+        "design_ref": "DESIGN.md section 5, C14",
+    },
     "C10": {
         "text": "Proof: for every range value, every body expression and every context, the comprehension each macro expands to (model of antlr/src/macros.rs) is observationally equal (same outcome, same host-call log from every state) to its defining fold: all = conjunction in order stopping at the first falsy element, exists = disjunction stopping at the first truthy one, exists_one = exactly one satisfying element (all visited), map / map-with-filter / filter = transformed / pre-filtered / satisfying elements in order; maps range over their keys; a non-iterable range is an error; an error on a reached element aborts with that error and elements after the deciding one contribute nothing (all_spec ... filter_spec, *_stops, *_error_aborts, *_pure), using the lemma that the step counter never influences evaluation. Tie to the code: every int list of length 0-4 over a 4-symbol alphabet x 8 macro forms x 6 body kinds (pure, erroring on chosen elements, call-logging), maps, two-deep nesting, against the model and an independent reference implementation of the folds; the expansion itself is compared with the parser's for every macro shape.",
         "technique": "Lean 4: observational-equivalence calculus over the monadic evaluator, loop invariants by induction on the range, steps-irrelevance by induction on Expr + differential correspondence (outcome and ordered call log)",
